@@ -347,15 +347,20 @@ impl<'a> ReadAdapter<'a> {
             0 => {
                 let buf = self.non_empty_reader_buffer_mut()?;
                 if buf.len() < N {
-                    return Err(DeserializationError::UnexpectedEOF);
+                    // the underlying reader handed us a short chunk: that is not end-of-file,
+                    // keep reading into our own buffer until we have N bytes or really hit EOF
+                    self.buffer_at_least(N)?;
+                    output.copy_from_slice(&self.buffer()[..N]);
+                    self.pos += N;
+                } else {
+                    // SAFETY: This copy is guaranteed to be safe, as we have validated above
+                    // that `buf` has at least N bytes, and `output` is defined to be exactly
+                    // N bytes.
+                    unsafe {
+                        core::ptr::copy_nonoverlapping(buf.as_ptr(), output.as_mut_ptr(), N);
+                    }
+                    self.reader.get_mut().consume(N);
                 }
-                // SAFETY: This copy is guaranteed to be safe, as we have validated above
-                // that `buf` has at least N bytes, and `output` is defined to be exactly
-                // N bytes.
-                unsafe {
-                    core::ptr::copy_nonoverlapping(buf.as_ptr(), output.as_mut_ptr(), N);
-                }
-                self.reader.get_mut().consume(N);
             },
             n if n >= N => {
                 // SAFETY: This copy is guaranteed to be safe, as we have validated above
